@@ -50,6 +50,10 @@ pub fn bodies(tier: &str) -> Vec<crate::e3::BodySpec> {
     vec![crate::e3::BodySpec {
         body: Arc::new(VisBody { name: "ingest(a,b) || insert a || reader: point reads agree with scans", kind: Kind::Plain, workers: 0, keyspaces: vec!["x"], initial: vec![("x", "ab", "0")], prerotate: vec![], threads: vec![vec![Act::Ingest("x", vec![("a", "ingested"), ("b", "ingested")])], vec![Act::Ins(("x", "a", "written"))]], finals: Finals::PointVsScan }),
         bound: 2,
+        secs: if q { 4.0 } else { 120.0 },
+    }, crate::e3::BodySpec {
+        body: Arc::new(VisBody { name: "batch(a) || insert a || rotate: point reads agree with scans [focus:write-path]", kind: Kind::Plain, workers: 0, keyspaces: vec!["x"], initial: vec![("x", "ab", "0")], prerotate: vec![], threads: vec![vec![Act::Batch(vec![("x", "a", "batch")])], vec![Act::Ins(("x", "a", "insert"))], vec![Act::Rotate("x")]], finals: Finals::PointVsScan }),
+        bound: 2,
         secs: if q { 5.0 } else { 120.0 },
     }]
 }
